@@ -13,7 +13,7 @@ META = {
     "technique": "Lean reference interpreter of Documentation/Template.md (Tpl, printTpl, expand) evaluated on generated template trees x value trees; kernel-checked theorems for tag-free text, the finder, the expression semantics used by {math:}/case (C04 evaluate_eq_tree) and rendering safety of well-formed tag trees",
     "level": "proof",
     "design_ref": "DESIGN.md §6 C02, notes/design-tmpl.md",
-    "text": "For generated well-formed templates (text, var, raw, math, super variable, inline if, if/elseif/else chains, nested loops over arrays and objects) and value trees the text appended by the real renderer equals the documented expansion computed by the Lean reference interpreter. Proved in Lean (parse + render of the printed template = expand, for every value, number reader, formatter and escape switch): render_parse_print_loops — trees of segment runs (text, {var:}, {raw:}, {math:} over literals and {var:path} operands), <if>/<elseif>/<else /> chains and <loop [set=S] value=V> loops nested in any order to any depth (loop variables in var/raw/math/case operands and inner set= paths, shadowing; arrays, objects, anything else; undefined members), under the side conditions of its statement (ok / pathV / caseV: the one semantic condition is that a path starting with an enclosing loop's value name is that loop's variable). Earlier stages (text, segments, block trees, one top-level loop) are special cases kept as separate theorems. The full equation for every well-formed template (super variable, inline if, sort/group) remains the stated target RenderParsePrint, decided per run by this check.",
+    "text": "For generated well-formed templates (text, var, raw, math, super variable, inline if, if/elseif/else chains, nested loops over arrays and objects) and value trees the text appended by the real renderer equals the documented expansion computed by the Lean reference interpreter. Proved in Lean (parse + render of the printed template = expand, for every value, number reader, formatter and escape switch): render_parse_print_loops — trees of segment runs (text, {var:}, {raw:}, {math:} over literals and {var:path} operands), inline {if case= true= false=} tags (either value optional), <if>/<elseif>/<else /> chains and <loop [set=S] value=V> loops nested in any order to any depth (loop variables in var/raw/math/case operands and inner set= paths, shadowing; arrays, objects, anything else; undefined members), under the side conditions of its statement (ok / pathV / caseV: the one semantic condition is that a path starting with an enclosing loop's value name is that loop's variable). Earlier stages (text, segments, block trees, one top-level loop) are special cases kept as separate theorems. The full equation for every well-formed template (super variable, sort/group) remains the stated target RenderParsePrint, decided per run by this check.",
     "note": "Side conditions of well-formed templates are explicit in the generator (names free of delimiters, loop value names not a prefix of any other name, attribute texts free of their quote, integers only: real formatting is C10, sort/group are C15/C18).",
 }
 
